@@ -270,6 +270,23 @@ fn oracle_wellformed(case: &[u8], obs: &mut Obs, f: Flavor) -> Result<(), String
         q.push(0);
         queries.push(q);
     }
+    // queries that are SLICES OF THE STRING TABLE'S OWN BUFFER (a caller that got a name from the table and asks for a
+    // prefix of it): the answer depends on the bytes, not on where they live
+    for k in 0..b.all.len().min(8) {
+        let i = b.all.len() - 1 - k;
+        let off = b.tab.syms[i].st_name as usize;
+        let full = b.all[i].len();
+        for l in [0usize, full / 2, full.saturating_sub(1), full] {
+            if let Some(q) = b.tab.strtab.get(off..off + l) {
+                let present = (b.first_hashed..b.all.len()).any(|j| b.all[j] == q);
+                let r = with_endian!(b.spec, |e| find(f, e, class, &b.hash, &b.tab.symtab, &b.tab.strtab, q));
+                let got = r.map_err(|e| format!("::new failed with {}", err_name(&e)))?.map_err(|e| format!("find of a slice of the string table failed with {}", err_name(&e)))?;
+                if got.is_some() != present || got.as_ref().map(|(j, _)| b.all[*j] != q).unwrap_or(false) {
+                    return Err(format!("{} {} {} [{}] with {} symbols: query {:?} given as the slice [{}, {}) of the string table itself answers {:?} (present: {})", b.enc.name(), SPEC_NAMES[b.spec as usize], fname, b.params, b.all.len(), String::from_utf8_lossy(q), off, off + l, got.map(|x| x.0), present));
+                }
+            }
+        }
+    }
     for q in &queries {
         let present: Vec<usize> = (b.first_hashed..b.all.len()).filter(|i| &b.all[*i] == q).collect();
         let r = with_endian!(b.spec, |e| find(f, e, class, &b.hash, &b.tab.symtab, &b.tab.strtab, q));
